@@ -53,10 +53,9 @@ func (c *CRLRevocationChecker) IsRevoked(clientCertificate *x509.Certificate, ve
 func issuerChains(verifiedChains [][]*x509.Certificate) [][]*x509.Certificate {
 	chains := make([][]*x509.Certificate, 0, len(verifiedChains))
 	for _, verifiedChain := range verifiedChains {
+		//a chain which consists of the end entity certificate only (certificate pinned in the trust pool) contains no issuer
 		if len(verifiedChain) > 1 {
 			chains = append(chains, verifiedChain[1:])
-		} else {
-			chains = append(chains, verifiedChain)
 		}
 	}
 	return chains
